@@ -51,7 +51,7 @@ func runC14(c *vf.Ctx) {
 	if !c.Active(sub) {
 		return
 	}
-	n := c.N(160, 3000)
+	n := c.N(160, 5000)
 	ids := allIdents()
 	for i := 0; i < n; i++ {
 		if !c.Mine(sub, i) {
